@@ -487,7 +487,7 @@ package commands
 //@ func (*uploadContext).uploadTransfer
 //@   props C03
 //@   requires @inv c != nil && c.gitfilter != nil && p != nil && p.Pointer != nil && p.Oid != fs.EmptyObjectSHA256
-//@   modifies all
+//@   modifies all, ghost lastdecodeerr
 //@   ensures result1 == nil ==> result0 != nil && result0.Oid == old(p.Oid) && result0.Path == objpath(old(p.Oid)) && result0.Size == p.Size && result0.Name == old(p.Name)
 //@   ensures result1 == nil && result0.Missing ==> !old(c.allowMissing)
 //@   ensures result1 != nil ==> !err_cleanptr(result1)
